@@ -188,9 +188,8 @@ func (server *SugarDB) handleCommand(ctx context.Context, message []byte, conn *
 		}
 
 		if internal.IsWriteCommand(command, subCommand) && !replay {
-			server.connInfo.mut.RLock()
-			server.aofEngine.LogCommand(server.connInfo.tcpClients[conn].Database, message)
-			server.connInfo.mut.RUnlock()
+			// Log the command under the database it was executed in (TCP and embedded callers alike).
+			server.aofEngine.LogCommand(ctx.Value("Database").(int), message)
 		}
 
 		server.stateMutationInProgress.Store(false)
